@@ -65,8 +65,9 @@ func c07Conf(version string, p []int, hv c07Hold) *sys.DataConf {
 	fl := sys.Cluster{Name: "cflap", RetryMax: 0, RetryLevel: 0, TimeoutResponseHeaderMs: 30000, TimeoutConnSrvMs: 500, FailNum: 2, CheckIntervalMs: 20,
 		Sub: []sys.SubCluster{{Name: "sf", Weight: 100, Backends: []sys.BackendSpec{{Name: "bflap", Addr: "127.0.0.1", Port: p[3], Weight: 10}}}}}
 	// "hold" cluster: same backends as c, but a response header timeout long enough for a
-	// batch of requests to be parked inside backends however loaded the machine is
-	hl := sys.Cluster{Name: "chold", RetryMax: 0, RetryLevel: 0, TimeoutResponseHeaderMs: 30000, TimeoutConnSrvMs: 2000, BalanceMode: "WLC"}
+	// batch of requests to be parked inside backends however loaded the machine is (RetryMax 3:
+	// a request that first meets the refused member a reload may add moves on to a live one)
+	hl := sys.Cluster{Name: "chold", RetryMax: 3, RetryLevel: 0, FailNum: 1, CheckIntervalMs: 1000, TimeoutResponseHeaderMs: 30000, TimeoutConnSrvMs: 2000, BalanceMode: "WLC"}
 	hsc := sys.SubCluster{Name: "sh", Weight: 100}
 	for i, port := range p[:3] {
 		name := fmt.Sprintf("h%d", i)
